@@ -195,6 +195,18 @@ impl C11 {
         let inside = sch.phases.iter().any(|p| *p == Phase::Acquired);
         let handled_pred = |ev: &[(u64, Ev)], _: &std::collections::HashSet<(i32, Phase)>| ev[mark.min(ev.len())..].iter().any(|e| matches!(e.1, Ev::Applied(_) | Ev::LoopPanicked(_)));
         let mut after = None;
+        if inside {
+            // let the loop thread reach its request for exclusive access before the parked reader goes on: a reader that
+            // asks for the server a second time then meets a queued writer (the interleaving a slow request produces)
+            let taken = |ev: &[(u64, Ev)], _: &std::collections::HashSet<(i32, Phase)>| ev[mark.min(ev.len())..].iter().any(|e| matches!(e.1, Ev::Taken(_) | Ev::LoopPanicked(_)));
+            if !lsp::wait_for_quiet(taken, WD) {
+                lsp::release_all();
+                s.kill();
+                return false;
+            }
+            std::thread::sleep(std::time::Duration::from_millis(15));
+            rep.count("writer_queued_behind_parked_reader", 1);
+        }
         if !inside {
             if !lsp::wait_for_quiet(handled_pred, WD) {
                 lsp::release_all();
@@ -359,6 +371,7 @@ impl C11 {
                 Ev::Acquired(_) => "a".to_string(),
                 Ev::Computed(_) => "c".to_string(),
                 Ev::Exited(..) => "x".to_string(),
+                Ev::Taken(_) => "t".to_string(),
                 Ev::Applied(_) => "A".to_string(),
                 Ev::LoopPanicked(_) => "P".to_string(),
             })
